@@ -248,3 +248,370 @@ Definition c06_dispatch_case (fb sync : bool) (nworkers : nat) (ranks : list nat
          nlist_eqb (nsort impl_ran) (nsort tasks) ]
   (* bits 4.. : 1 + index of the first event that is not enabled (0 when all are) *)
   + 16 * match r with Some _ => 0 | None => S (first_disabled c06_f al fb m cs s0) end.
+
+
+(* ======================================================================================
+   Jobs may FAIL (repo commit 32238ed: "an exception in a job on an MPI worker rank left every
+   rank blocked").  Extension of the protocol above; the definitions above are unchanged and are
+   the special case [fails = fun _ => false] (Proofs/DispatchP.v: estep_with_embed).
+
+   [fails t] = the job raises on task t.  [job t] = what a worker that catches the exception
+   sends back: [Ok (f t)] or [Err t] (WorkerError(err); the error is identified by its task).
+   Root (_mpi_root_task): remembers the FIRST error it receives ([eerr]); from then on it yields
+   nothing and hands out no task: every later result - error or not - is answered with the
+   sentinel ([e_recv_drain]); when no worker is active it raises, _mpi_iter_unordered catches it.
+   Root fallback (`yield from map(wrapped_func, iterable)`, only reached without an error): the
+   first failing task raises ([e_fallback_err]), the rest stays pending.
+   Closing collective: every rank enters `error = comm.bcast(error, root=0)`; it completes in ONE
+   synchronous step when the root and all workers are there ([e_bar]) and gives every rank the
+   root's error flag: [eout] = outcome per rank (index 0 = root), [Some t] = the rank raises the
+   error of task t, [None] = it goes on to the Barrier and returns.
+   [wcatch = true] is the worker of 32238ed (try/except around the job); [wcatch = false] the
+   pinned worker: the exception escapes, the worker leaves without sending ([e_wescape]) - kept
+   as documentation of finding F23 group C.
+   [eoqn w] counts the sentinels worker w has received. *)
+Inductive echoice :=
+| EInitTask (k : nat) | EInitEoq (k : nat) | EInitDone
+| ERecvMore (i : nat) | ERecvLast (i : nat) | ERecvErr (i : nat) | ERecvDrain (i : nat)
+| EFallback | EFallbackErr | EExit
+| EWTask (i : nat) | EWEscape (i : nat) | EWEoq (i : nat) | EBar.
+
+Section DispatchE.
+  Context {T R : Type}.
+  Context (f : T -> R) (fails : T -> bool).
+  Context (allowed : nat -> bool).
+  Context (wcatch : bool).
+
+  Inductive res := Ok (x : R) | Err (t : T).
+  Definition job (t : T) : res := if fails t then Err t else Ok (f t).
+  Record eworker := mkEW { einb : list (msg T); eoutb : list res; efin : bool; eoqn : nat }.
+  Record est := mkES { epc : rpc; epend : list T; ews : list eworker; egot : list R; eran : list T;
+                       eerr : option T; eout : list (option T) }.
+
+  Definition enoinb (l : list eworker) : bool := forallb (fun w => is_nil (einb w)) l.
+  Definition eroot_ok (m : mode) (l : list eworker) : bool :=
+    match m with Eager => true | Sync => enoinb l end.
+
+  Inductive estep (m : mode) : est -> est -> Prop :=
+  (* first pass (no error can have been received yet: `error = None` follows it) *)
+  | e_init_task k a t p ws g r o w :
+      allowed k = true -> nth_error ws k = Some w -> eroot_ok m ws = true ->
+      estep m (mkES (RInit k a) (t :: p) ws g r None o)
+              (mkES (RInit (S k) (S a)) p (upd k (mkEW (einb w ++ [Task t]) (eoutb w) (efin w) (eoqn w)) ws) g r None o)
+  | e_init_eoq k a p ws g r o w :
+      (allowed k = false \/ p = []) -> nth_error ws k = Some w -> eroot_ok m ws = true ->
+      estep m (mkES (RInit k a) p ws g r None o)
+              (mkES (RInit (S k) a) p (upd k (mkEW (einb w ++ [EOQ]) (eoutb w) (efin w) (eoqn w)) ws) g r None o)
+  | e_init_done k a p ws g r o :
+      k = length ws -> eroot_ok m ws = true ->
+      estep m (mkES (RInit k a) p ws g r None o) (mkES (RLoop a) p ws g r None o)
+  (* a result, no error so far, a task is pending: yield, hand out the next task *)
+  | e_recv_more i a t p ws g r o w x xs :
+      nth_error ws i = Some w -> eoutb w = Ok x :: xs -> eroot_ok m ws = true ->
+      estep m (mkES (RLoop (S a)) (t :: p) ws g r None o)
+              (mkES (RLoop (S a)) p (upd i (mkEW (einb w ++ [Task t]) xs (efin w) (eoqn w)) ws) (g ++ [x]) r None o)
+  (* a result, no error so far, nothing pending: yield, sentinel *)
+  | e_recv_last i a ws g r o w x xs :
+      nth_error ws i = Some w -> eoutb w = Ok x :: xs -> eroot_ok m ws = true ->
+      estep m (mkES (RLoop (S a)) [] ws g r None o)
+              (mkES (RLoop a) [] (upd i (mkEW (einb w ++ [EOQ]) xs (efin w) (eoqn w)) ws) (g ++ [x]) r None o)
+  (* the FIRST error: remember it, no yield, no new task although some may be pending, sentinel *)
+  | e_recv_err i a p ws g r o w t' xs :
+      nth_error ws i = Some w -> eoutb w = Err t' :: xs -> eroot_ok m ws = true ->
+      estep m (mkES (RLoop (S a)) p ws g r None o)
+              (mkES (RLoop a) p (upd i (mkEW (einb w ++ [EOQ]) xs (efin w) (eoqn w)) ws) g r (Some t') o)
+  (* any message after the first error: dropped, sentinel *)
+  | e_recv_drain i a p ws g r o w y xs e :
+      nth_error ws i = Some w -> eoutb w = y :: xs -> eroot_ok m ws = true ->
+      estep m (mkES (RLoop (S a)) p ws g r (Some e) o)
+              (mkES (RLoop a) p (upd i (mkEW (einb w ++ [EOQ]) xs (efin w) (eoqn w)) ws) g r (Some e) o)
+  (* no worker active: with an error the root raises (caught in _mpi_iter_unordered), without
+     one it first runs whatever is still pending itself; then it enters the broadcast *)
+  | e_exit p ws g r e o :
+      eroot_ok m ws = true -> (e = None -> p = []) ->
+      estep m (mkES (RLoop 0) p ws g r e o) (mkES RBar p ws g r e o)
+  | e_fallback t p ws g r o :
+      eroot_ok m ws = true -> fails t = false ->
+      estep m (mkES (RLoop 0) (t :: p) ws g r None o) (mkES (RLoop 0) p ws (g ++ [f t]) (r ++ [t]) None o)
+  | e_fallback_err t p ws g r o :
+      eroot_ok m ws = true -> fails t = true ->
+      estep m (mkES (RLoop 0) (t :: p) ws g r None o) (mkES (RLoop 0) p ws g (r ++ [t]) (Some t) o)
+  (* worker: run the job, send the result or (wcatch) the error *)
+  | e_wtask i c p ws g r e o w t ms :
+      nth_error ws i = Some w -> efin w = false -> einb w = Task t :: ms ->
+      (wcatch = true \/ fails t = false) ->
+      estep m (mkES c p ws g r e o)
+              (mkES c p (upd i (mkEW ms (eoutb w ++ [job t]) false (eoqn w)) ws) g (r ++ [t]) e o)
+  (* pinned worker: the exception escapes _mpi_worker_task, the rank leaves, nothing is sent *)
+  | e_wescape i c p ws g r e o w t ms :
+      nth_error ws i = Some w -> efin w = false -> einb w = Task t :: ms ->
+      wcatch = false -> fails t = true ->
+      estep m (mkES c p ws g r e o)
+              (mkES c p (upd i (mkEW ms (eoutb w) true (eoqn w)) ws) g (r ++ [t]) e o)
+  | e_weoq i c p ws g r e o w ms :
+      nth_error ws i = Some w -> efin w = false -> einb w = EOQ :: ms ->
+      estep m (mkES c p ws g r e o) (mkES c p (upd i (mkEW ms (eoutb w) true (S (eoqn w))) ws) g r e o)
+  (* the closing broadcast of the error flag: one synchronous step, every rank gets the root's flag *)
+  | e_bar p ws g r e o :
+      forallb efin ws = true ->
+      estep m (mkES RBar p ws g r e o) (mkES RDone p ws g r e (repeat e (S (length ws)))).
+
+  (* ---- termination measure ---- *)
+  Definition ewm (w : eworker) : nat :=
+    3 * nsum (map is_task (einb w)) + 2 * length (eoutb w) + nsum (map is_eoq (einb w)).
+  Definition emu (s : est) : nat :=
+    4 * length (epend s) + nsum (map ewm (ews s)) + pcw (epc s) (length (ews s)).
+
+  Definition einit (tasks : list T) (n : nat) : est :=
+    mkES (RInit 0 0) tasks (repeat (mkEW [] [] false 0) n) [] [] None [].
+
+  Inductive ereach (m : mode) (s0 : est) : est -> Prop :=
+  | ereach_refl : ereach m s0 s0
+  | ereach_step s s' : ereach m s0 s -> estep m s s' -> ereach m s0 s'.
+
+  Inductive esteps (m : mode) : nat -> est -> est -> Prop :=
+  | esteps_O s : esteps m 0 s s
+  | esteps_S n s s' s'' : estep m s s' -> esteps m n s' s'' -> esteps m (S n) s s''.
+
+  (* nothing can move although the run is not over *)
+  Definition estuck (m : mode) (s : est) : Prop := epc s <> RDone /\ forall s', ~ estep m s s'.
+
+  (* the single-process run: tasks in order, the first failing task raises
+     (ran, yielded, error, not run) *)
+  Fixpoint seqrun (ran : list T) (got : list R) (p : list T) : list T * list R * option T * list T :=
+    match p with
+    | [] => (ran, got, None, [])
+    | t :: p' => if fails t then (ran ++ [t], got, Some t, p') else seqrun (ran ++ [t]) (got ++ [f t]) p'
+    end.
+
+  (* ---- executable step ---- *)
+  Definition eset (s : est) (c : rpc) (p : list T) (l : list eworker) (g : list R) (r : list T) (e : option T) : est :=
+    mkES c p l g r e (eout s).
+
+  Definition estep_with (m : mode) (c : echoice) (s : est) : option est :=
+    let l := ews s in
+    match c with
+    | EInitTask k' =>
+        match epc s, epend s, nth_error l k', eerr s with
+        | RInit k a, t :: p, Some w, None =>
+            if (k' =? k) && allowed k && eroot_ok m l
+            then Some (eset s (RInit (S k) (S a)) p (upd k (mkEW (einb w ++ [Task t]) (eoutb w) (efin w) (eoqn w)) l) (egot s) (eran s) None)
+            else None
+        | _, _, _, _ => None
+        end
+    | EInitEoq k' =>
+        match epc s, nth_error l k', eerr s with
+        | RInit k a, Some w, None =>
+            if (k' =? k) && (negb (allowed k) || is_nil (epend s)) && eroot_ok m l
+            then Some (eset s (RInit (S k) a) (epend s) (upd k (mkEW (einb w ++ [EOQ]) (eoutb w) (efin w) (eoqn w)) l) (egot s) (eran s) None)
+            else None
+        | _, _, _ => None
+        end
+    | EInitDone =>
+        match epc s, eerr s with
+        | RInit k a, None => if (k =? length l) && eroot_ok m l then Some (eset s (RLoop a) (epend s) l (egot s) (eran s) None) else None
+        | _, _ => None
+        end
+    | ERecvMore i =>
+        match epc s, epend s, nth_error l i, eerr s with
+        | RLoop (S a), t :: p, Some w, None =>
+            match eoutb w with
+            | Ok x :: xs => if eroot_ok m l
+                            then Some (eset s (RLoop (S a)) p (upd i (mkEW (einb w ++ [Task t]) xs (efin w) (eoqn w)) l) (egot s ++ [x]) (eran s) None)
+                            else None
+            | _ => None
+            end
+        | _, _, _, _ => None
+        end
+    | ERecvLast i =>
+        match epc s, epend s, nth_error l i, eerr s with
+        | RLoop (S a), [], Some w, None =>
+            match eoutb w with
+            | Ok x :: xs => if eroot_ok m l
+                            then Some (eset s (RLoop a) [] (upd i (mkEW (einb w ++ [EOQ]) xs (efin w) (eoqn w)) l) (egot s ++ [x]) (eran s) None)
+                            else None
+            | _ => None
+            end
+        | _, _, _, _ => None
+        end
+    | ERecvErr i =>
+        match epc s, nth_error l i, eerr s with
+        | RLoop (S a), Some w, None =>
+            match eoutb w with
+            | Err t' :: xs => if eroot_ok m l
+                              then Some (eset s (RLoop a) (epend s) (upd i (mkEW (einb w ++ [EOQ]) xs (efin w) (eoqn w)) l) (egot s) (eran s) (Some t'))
+                              else None
+            | _ => None
+            end
+        | _, _, _ => None
+        end
+    | ERecvDrain i =>
+        match epc s, nth_error l i, eerr s with
+        | RLoop (S a), Some w, Some e =>
+            match eoutb w with
+            | _ :: xs => if eroot_ok m l
+                         then Some (eset s (RLoop a) (epend s) (upd i (mkEW (einb w ++ [EOQ]) xs (efin w) (eoqn w)) l) (egot s) (eran s) (Some e))
+                         else None
+            | [] => None
+            end
+        | _, _, _ => None
+        end
+    | EExit =>
+        match epc s with
+        | RLoop 0 => if eroot_ok m l && (match eerr s with None => is_nil (epend s) | Some _ => true end)
+                     then Some (eset s RBar (epend s) l (egot s) (eran s) (eerr s)) else None
+        | _ => None
+        end
+    | EFallback =>
+        match epc s, epend s, eerr s with
+        | RLoop 0, t :: p, None => if eroot_ok m l && negb (fails t)
+                                   then Some (eset s (RLoop 0) p l (egot s ++ [f t]) (eran s ++ [t]) None) else None
+        | _, _, _ => None
+        end
+    | EFallbackErr =>
+        match epc s, epend s, eerr s with
+        | RLoop 0, t :: p, None => if eroot_ok m l && fails t
+                                   then Some (eset s (RLoop 0) p l (egot s) (eran s ++ [t]) (Some t)) else None
+        | _, _, _ => None
+        end
+    | EWTask i =>
+        match nth_error l i with
+        | Some w =>
+            match efin w, einb w with
+            | false, Task t :: ms =>
+                if wcatch || negb (fails t)
+                then Some (eset s (epc s) (epend s) (upd i (mkEW ms (eoutb w ++ [job t]) false (eoqn w)) l) (egot s) (eran s ++ [t]) (eerr s))
+                else None
+            | _, _ => None
+            end
+        | None => None
+        end
+    | EWEscape i =>
+        match nth_error l i with
+        | Some w =>
+            match efin w, einb w with
+            | false, Task t :: ms =>
+                if negb wcatch && fails t
+                then Some (eset s (epc s) (epend s) (upd i (mkEW ms (eoutb w) true (eoqn w)) l) (egot s) (eran s ++ [t]) (eerr s))
+                else None
+            | _, _ => None
+            end
+        | None => None
+        end
+    | EWEoq i =>
+        match nth_error l i with
+        | Some w =>
+            match efin w, einb w with
+            | false, EOQ :: ms => Some (eset s (epc s) (epend s) (upd i (mkEW ms (eoutb w) true (S (eoqn w))) l) (egot s) (eran s) (eerr s))
+            | _, _ => None
+            end
+        | None => None
+        end
+    | EBar =>
+        match epc s with
+        | RBar => if forallb efin l
+                  then Some (mkES RDone (epend s) l (egot s) (eran s) (eerr s) (repeat (eerr s) (S (length l)))) else None
+        | _ => None
+        end
+    end.
+
+  Fixpoint erun (m : mode) (cs : list echoice) (s : est) : option est :=
+    match cs with
+    | [] => Some s
+    | c :: cs' => match estep_with m c s with Some s' => erun m cs' s' | None => None end
+    end.
+  Fixpoint efirst_disabled (m : mode) (cs : list echoice) (s : est) : nat :=
+    match cs with
+    | [] => 0
+    | c :: cs' => match estep_with m c s with Some s' => S (efirst_disabled m cs' s') | None => 0 end
+    end.
+  (* every choice the model offers in a state (for the stuck-state refutation): no choice with
+     a worker index below [n] or a root choice is enabled *)
+  Definition echoices (n : nat) : list echoice :=
+    [EInitDone; EFallback; EFallbackErr; EExit; EBar]
+    ++ flat_map (fun i => [EInitTask i; EInitEoq i; ERecvMore i; ERecvLast i; ERecvErr i; ERecvDrain i;
+                           EWTask i; EWEscape i; EWEoq i]) (seq 0 n).
+  Definition enone_enabled (m : mode) (s : est) : bool :=
+    forallb (fun c => match estep_with m c s with None => true | Some _ => false end) (echoices (length (ews s))).
+End DispatchE.
+
+Arguments res : clear implicits.
+Arguments eworker : clear implicits.
+Arguments est : clear implicits.
+Arguments Err {T R}.
+Arguments Ok {T R}.
+
+(* ---- the error-free protocol above is the special case: embedding of its states/choices ---- *)
+Definition embW {T R} (w : worker T R) : eworker T R :=
+  mkEW (inb w) (map (@Ok T R) (outb w)) (fin w) (if fin w then 1 else 0).
+Definition embed {T R} (s : st T R) : est T R :=
+  mkES (pc s) (pend s) (map embW (ws s)) (got s) (ran s) None
+       (if is_done (pc s) then repeat None (S (length (ws s))) else []).
+Definition lift (c : choice) : echoice :=
+  match c with
+  | CInitTask k => EInitTask k | CInitEoq k => EInitEoq k | CInitDone => EInitDone
+  | CRecvMore i => ERecvMore i | CRecvLast i => ERecvLast i | CFallback => EFallback | CExit => EExit
+  | CWTask i => EWTask i | CWEoq i => EWEoq i | CBar => EBar
+  end.
+
+(* ---------- correspondence checker for C06 (i'), jobs that may fail ---------- *)
+(* as c06_dispatch_case; [bad] = the task values for which the job raises; [cs] = the
+   communication log translated event by event (the root's answer to a received result tells
+   more / last / first error / drained); impl_got = what the root's iterator yielded before it
+   ended (exact_got = false: only how many results); impl_ran = the tasks the job function was
+   called with on any rank; impl_out = how iter_unordered ended per rank, index = rank:
+   None = returned, Some t = raised the error of task t. *)
+Definition c06_fails (bad : list nat) (t : nat) : bool := existsb (Nat.eqb t) bad.
+Definition onat_eqb (a b : option nat) : bool :=
+  match a, b with None, None => true | Some x, Some y => x =? y | _, _ => false end.
+Fixpoint nremove1 (x : nat) (l : list nat) : option (list nat) :=
+  match l with
+  | [] => None
+  | y :: ys => if x =? y then Some ys else match nremove1 x ys with Some r => Some (y :: r) | None => None end
+  end.
+(* multiset inclusion *)
+Fixpoint nsubm (a b : list nat) : bool :=
+  match a with
+  | [] => true
+  | x :: a' => match nremove1 x b with Some b' => nsubm a' b' | None => false end
+  end.
+
+Definition c06_edispatch_case (sync : bool) (nworkers : nat) (ranks tasks bad : list nat)
+           (cs : list echoice) (exact_got : bool) (impl_got impl_ran : list nat)
+           (impl_out : list (option nat)) : nat :=
+  let m := if sync then Sync else Eager in
+  let al := c06_allowed ranks in
+  let fl := c06_fails bad in
+  let s0 := einit (R := nat) tasks nworkers in
+  let r := erun c06_f fl al true m cs s0 in
+  let raised := match impl_out with o :: _ => o | [] => None end in
+  let okran := map c06_f (filter (fun t => negb (fl t)) impl_ran) in
+  code [ (* flag0: every logged event is enabled in the model; the model ends after the closing
+                   broadcast, yielded what the root yielded (same order), ran the same tasks and
+                   every rank ends as observed *)
+         match r with
+         | Some s => is_done (epc s)
+                     && (if exact_got then nlist_eqb (egot s) impl_got else length (egot s) =? length impl_got)
+                     && nlist_eqb (nsort (eran s)) (nsort impl_ran)
+                     && list_eqb onat_eqb (eout s) impl_out
+         | None => false
+         end;
+         (* flag1: all ranks end iter_unordered the same way *)
+         (length impl_out =? S nworkers) && forallb (onat_eqb raised) impl_out;
+         (* flag2: they raise iff some executed task fails, and then the error of an executed failing task *)
+         match raised with
+         | None => negb (existsb fl impl_ran)
+         | Some t => fl t && existsb (Nat.eqb t) impl_ran
+         end;
+         (* flag3: every task is executed at most once *)
+         nsubm impl_ran tasks;
+         (* flag4: what was yielded are results of distinct executed tasks that did not fail *)
+         (if exact_got then nsubm impl_got okran else length impl_got <=? length okran);
+         (* flag5: without an error every task was executed and the root got map f tasks *)
+         match raised with
+         | None => nlist_eqb (nsort impl_ran) (nsort tasks)
+                   && (if exact_got then nlist_eqb (nsort impl_got) (nsort (map c06_f tasks))
+                       else length impl_got =? length tasks)
+         | Some _ => true
+         end ]
+  + 64 * match r with Some _ => 0 | None => S (efirst_disabled c06_f fl al true m cs s0) end.
